@@ -1,7 +1,679 @@
 package main
 
-// replayObligation tries to turn the solver's model into a run of the real code.
+import (
+	"encoding/json"
+	"fmt"
+	"go/types"
+	"math/big"
+	"os"
+	"os/exec"
+	"path/filepath"
+	"sort"
+	"strings"
+
+	"golang.org/x/tools/go/ssa"
+)
+
+// Replay: the model of a failed obligation is turned into concrete inputs; the real function is run on
+// them inside its own package (go test -overlay, nothing is written into /repo); the observed outputs
+// are fed back into the failed clause, which is then evaluated by the solver on ground terms.
+// A panic observed for a #safe obligation, or a clause that evaluates to false, confirms the violation.
+
+type cval struct {
+	kind    string // int bool bv real slice ptr struct str func err iface unsupported
+	goT     types.Type
+	i       *big.Int
+	isNil   bool
+	elems   []*cval
+	fields  []*cval
+	pointee *cval
+	ref     int64
+	off     int64
+	cap     int64
+	ln      int64
+	varName string
+}
+
+type probeReq struct {
+	term string
+	into func(*sx)
+}
+
+type replayCtx struct {
+	u       *Unit
+	fn      *ssa.Function
+	probes  []probeReq
+	imports map[string]string
+	pkg     *types.Package
+	nextRef int64
+	decls   []string
+	ctr     int
+	refVars map[string]string // "ptr:<ref>" -> go variable
+}
+
+const replayElems = 48
+
+func (rc *replayCtx) heapInit(name string) (string, bool) {
+	init := sanitize(name) + "!init"
+	return init, rc.u.decl[init]
+}
+
+// plan builds the probe list for a symbolic value of Go type t denoted by SMT term x.
+func (rc *replayCtx) plan(x string, t types.Type, depth int) *cval {
+	u := rc.u
+	s := u.tc.sortOf(t)
+	c := &cval{goT: t}
+	switch s.K {
+	case KBool:
+		c.kind = "bool"
+		rc.probes = append(rc.probes, probeReq{x, func(v *sx) { c.i, _ = sxInt(v) }})
+	case KInt:
+		c.kind = "int"
+		rc.probes = append(rc.probes, probeReq{x, func(v *sx) { c.i, _ = sxInt(v) }})
+	case KBV:
+		c.kind = "bv"
+		rc.probes = append(rc.probes, probeReq{x, func(v *sx) { c.i, _ = sxInt(v) }})
+	case KErr:
+		c.kind = "err"
+		rc.probes = append(rc.probes, probeReq{x, func(v *sx) { c.i, _ = sxInt(v) }})
+	case KFunc:
+		c.kind = "func"
+		rc.probes = append(rc.probes, probeReq{x, func(v *sx) { c.i, _ = sxInt(v) }})
+	case KSlice:
+		c.kind = "slice"
+		el := t.Underlying().(*types.Slice).Elem()
+		rc.probes = append(rc.probes, probeReq{"(s-ref " + x + ")", func(v *sx) {
+			r, _ := sxInt(v)
+			if r != nil {
+				c.ref = r.Int64()
+			}
+		}})
+		rc.probes = append(rc.probes, probeReq{"(s-off " + x + ")", func(v *sx) {
+			r, _ := sxInt(v)
+			if r != nil && r.IsInt64() {
+				c.off = r.Int64()
+			}
+		}})
+		rc.probes = append(rc.probes, probeReq{"(s-len " + x + ")", func(v *sx) {
+			r, _ := sxInt(v)
+			if r != nil && r.IsInt64() {
+				c.ln = r.Int64()
+			} else {
+				c.ln = 1 << 40
+			}
+		}})
+		rc.probes = append(rc.probes, probeReq{"(s-cap " + x + ")", func(v *sx) {
+			r, _ := sxInt(v)
+			if r != nil && r.IsInt64() {
+				c.cap = r.Int64()
+			} else {
+				c.cap = 1 << 40
+			}
+		}})
+		hn, _, _ := u.elemHeapName(el)
+		if init, ok := rc.heapInit(hn); ok && depth < 3 {
+			for i := 0; i < replayElems; i++ {
+				ec := rc.plan(fmt.Sprintf("(select (select %s (s-ref %s)) (+ (s-off %s) %d))", init, x, x, i), el, depth+1)
+				c.elems = append(c.elems, ec)
+			}
+		}
+	case KStr:
+		c.kind = "str"
+		rc.probes = append(rc.probes, probeReq{"(str-len " + x + ")", func(v *sx) {
+			r, _ := sxInt(v)
+			if r != nil && r.IsInt64() {
+				c.ln = r.Int64()
+			}
+		}})
+		for i := 0; i < replayElems; i++ {
+			ec := &cval{kind: "bv", goT: types.Typ[types.Uint8]}
+			rc.probes = append(rc.probes, probeReq{fmt.Sprintf("(select (str-arr %s) %d)", x, i), func(v *sx) { ec.i, _ = sxInt(v) }})
+			c.elems = append(c.elems, ec)
+		}
+	case KRef:
+		c.kind = "ptr"
+		rc.probes = append(rc.probes, probeReq{x, func(v *sx) {
+			r, _ := sxInt(v)
+			if r != nil {
+				c.ref = r.Int64()
+				c.isNil = r.Sign() == 0
+			}
+		}})
+		pt, ok := t.Underlying().(*types.Pointer)
+		if !ok || depth >= 3 {
+			c.kind = "unsupported"
+			return c
+		}
+		el := pt.Elem()
+		switch eu := el.Underlying().(type) {
+		case *types.Struct:
+			pc := &cval{kind: "struct", goT: el}
+			for i := 0; i < eu.NumFields(); i++ {
+				hn, _, fs := u.fieldHeapName(el, i)
+				if init, ok := rc.heapInit(hn); ok {
+					pc.fields = append(pc.fields, rc.plan(fmt.Sprintf("(select %s %s)", init, x), eu.Field(i).Type(), depth+1))
+				} else {
+					pc.fields = append(pc.fields, rc.zeroC(eu.Field(i).Type(), fs))
+				}
+			}
+			c.pointee = pc
+		case *types.Array:
+			c.kind = "unsupported"
+		default:
+			hn, _, bs := u.boxHeapName(el)
+			if init, ok := rc.heapInit(hn); ok {
+				c.pointee = rc.plan(fmt.Sprintf("(select %s %s)", init, x), el, depth+1)
+			} else {
+				c.pointee = rc.zeroC(el, bs)
+			}
+		}
+	case KStruct:
+		c.kind = "struct"
+		st := t.Underlying().(*types.Struct)
+		sn := u.tc.structName(t)
+		for i := 0; i < st.NumFields(); i++ {
+			c.fields = append(c.fields, rc.plan("("+u.tc.fieldSel(sn, i)+" "+x+")", st.Field(i).Type(), depth+1))
+		}
+	case KReal:
+		c.kind = "real"
+		rc.probes = append(rc.probes, probeReq{x, func(v *sx) { c.varName = v.String() }})
+	default:
+		c.kind = "unsupported"
+	}
+	return c
+}
+
+func (rc *replayCtx) zeroC(t types.Type, s *Sort) *cval {
+	c := &cval{goT: t, i: big.NewInt(0), isNil: true}
+	switch s.K {
+	case KBool:
+		c.kind = "bool"
+	case KInt:
+		c.kind = "int"
+	case KBV:
+		c.kind = "bv"
+	case KErr:
+		c.kind = "err"
+	case KFunc:
+		c.kind = "func"
+	case KSlice:
+		c.kind = "slice"
+	case KStr:
+		c.kind = "str"
+	case KRef:
+		c.kind = "ptr"
+	case KStruct:
+		c.kind = "struct"
+		st := t.Underlying().(*types.Struct)
+		for i := 0; i < st.NumFields(); i++ {
+			c.fields = append(c.fields, rc.zeroC(st.Field(i).Type(), rc.u.tc.sortOf(st.Field(i).Type())))
+		}
+	default:
+		c.kind = "unsupported"
+	}
+	return c
+}
+
+func (rc *replayCtx) typeStr(t types.Type) string {
+	return types.TypeString(t, func(p *types.Package) string {
+		if p == rc.pkg {
+			return ""
+		}
+		rc.imports[p.Path()] = p.Name()
+		return p.Name()
+	})
+}
+
+func (rc *replayCtx) tmp(prefix string) string {
+	rc.ctr++
+	return fmt.Sprintf("%s%d", prefix, rc.ctr)
+}
+
+func signedVal(v *big.Int, s *Sort) *big.Int {
+	if v == nil {
+		return big.NewInt(0)
+	}
+	if s.K == KBV && s.Signed && v.Bit(s.W-1) == 1 {
+		return new(big.Int).Sub(v, new(big.Int).Lsh(big.NewInt(1), uint(s.W)))
+	}
+	return v
+}
+
+// goExpr returns a Go expression that builds the concrete value (emitting declarations as needed).
+func (rc *replayCtx) goExpr(c *cval) (string, error) {
+	s := rc.u.tc.sortOf(c.goT)
+	switch c.kind {
+	case "bool":
+		if c.i != nil && c.i.Sign() != 0 {
+			return rc.typeStr(c.goT) + "(true)", nil
+		}
+		return rc.typeStr(c.goT) + "(false)", nil
+	case "int":
+		if c.i == nil {
+			return rc.typeStr(c.goT) + "(0)", nil
+		}
+		if !c.i.IsInt64() {
+			return "", fmt.Errorf("integer input %s does not fit int64", c.i)
+		}
+		return fmt.Sprintf("%s(%s)", rc.typeStr(c.goT), c.i), nil
+	case "bv":
+		return fmt.Sprintf("%s(%s)", rc.typeStr(c.goT), signedVal(c.i, s)), nil
+	case "str":
+		if c.ln > replayElems {
+			return "", fmt.Errorf("string input longer than %d", replayElems)
+		}
+		var bs []string
+		for i := int64(0); i < c.ln; i++ {
+			v := c.elems[i].i
+			if v == nil {
+				v = big.NewInt(0)
+			}
+			bs = append(bs, v.String())
+		}
+		return rc.typeStr(c.goT) + "([]byte{" + strings.Join(bs, ",") + "})", nil
+	case "err":
+		if c.i == nil || c.i.Sign() == 0 {
+			return "error(nil)", nil
+		}
+		for name, id := range rc.u.eng.errIDs {
+			if int64(id) == c.i.Int64() {
+				return name, nil
+			}
+		}
+		rc.imports["errors"] = "errors"
+		return `errors.New("govc replay error")`, nil
+	case "func":
+		if c.i == nil || c.i.Sign() == 0 {
+			return "nil", nil
+		}
+		return rc.recorder(c.goT)
+	case "slice":
+		if c.ref == 0 {
+			return rc.typeStr(c.goT) + "(nil)", nil
+		}
+		if c.ln > replayElems || c.ln < 0 {
+			return "", fmt.Errorf("slice input of length %d exceeds the replay cap %d", c.ln, replayElems)
+		}
+		el := c.goT.Underlying().(*types.Slice).Elem()
+		var es []string
+		for i := int64(0); i < c.ln; i++ {
+			if int(i) >= len(c.elems) {
+				es = append(es, rc.zeroLit(el))
+				continue
+			}
+			e, err := rc.goExpr(c.elems[i])
+			if err != nil {
+				return "", err
+			}
+			es = append(es, e)
+		}
+		extra := c.cap - c.ln
+		if extra < 0 || extra > 64 {
+			extra = 0
+		}
+		v := rc.tmp("s")
+		rc.decls = append(rc.decls, fmt.Sprintf("%s := append(make([]%s, 0, %d), []%s{%s}...)", v, rc.typeStr(el), c.ln+extra, rc.typeStr(el), strings.Join(es, ", ")))
+		c.varName = v
+		return rc.typeStr(c.goT) + "(" + v + ")", nil
+	case "ptr":
+		if c.isNil || c.ref == 0 {
+			return "(" + rc.typeStr(c.goT) + ")(nil)", nil
+		}
+		key := fmt.Sprintf("ptr:%s:%d", rc.typeStr(c.goT), c.ref)
+		if v, ok := rc.refVars[key]; ok {
+			c.varName = v
+			return v, nil
+		}
+		if c.pointee == nil {
+			return "", fmt.Errorf("pointer input of unsupported shape %s", c.goT)
+		}
+		pe, err := rc.goExpr(c.pointee)
+		if err != nil {
+			return "", err
+		}
+		v := rc.tmp("p")
+		el := c.goT.Underlying().(*types.Pointer).Elem()
+		rc.decls = append(rc.decls, fmt.Sprintf("%s := new(%s); *%s = %s", v, rc.typeStr(el), v, pe))
+		rc.refVars[key] = v
+		c.varName = v
+		return v, nil
+	case "struct":
+		st := c.goT.Underlying().(*types.Struct)
+		var fs []string
+		for i, f := range c.fields {
+			if f.kind == "unsupported" {
+				continue
+			}
+			e, err := rc.goExpr(f)
+			if err != nil {
+				return "", err
+			}
+			fs = append(fs, st.Field(i).Name()+": "+e)
+		}
+		return rc.typeStr(c.goT) + "{" + strings.Join(fs, ", ") + "}", nil
+	}
+	return "", fmt.Errorf("input of unsupported shape %s (%s)", c.goT, c.kind)
+}
+
+func (rc *replayCtx) zeroLit(t types.Type) string {
+	return "*new(" + rc.typeStr(t) + ")"
+}
+
+// recorder builds a callback that records its arguments.
+func (rc *replayCtx) recorder(t types.Type) (string, error) {
+	sig, ok := t.Underlying().(*types.Signature)
+	if !ok {
+		return "", fmt.Errorf("function input of unsupported type")
+	}
+	var ps, enc []string
+	for i := 0; i < sig.Params().Len(); i++ {
+		ps = append(ps, fmt.Sprintf("a%d %s", i, rc.typeStr(sig.Params().At(i).Type())))
+		enc = append(enc, fmt.Sprintf("govcEnc(a%d)", i))
+	}
+	if sig.Results().Len() > 0 {
+		return "", fmt.Errorf("callback with results not supported in replay")
+	}
+	return fmt.Sprintf("func(%s) { govcLog = append(govcLog, []interface{}{%s}) }", strings.Join(ps, ", "), strings.Join(enc, ", ")), nil
+}
+
+const replayPrelude = `
+var govcLog []interface{}
+
+func govcEnc(x interface{}) interface{} { return govcEncV(reflect.ValueOf(x), 0) }
+
+func govcEncV(v reflect.Value, d int) interface{} {
+	if !v.IsValid() || d > 6 {
+		return nil
+	}
+	switch v.Kind() {
+	case reflect.Bool:
+		return v.Bool()
+	case reflect.Int, reflect.Int8, reflect.Int16, reflect.Int32, reflect.Int64:
+		return fmt.Sprint(v.Int())
+	case reflect.Uint, reflect.Uint8, reflect.Uint16, reflect.Uint32, reflect.Uint64, reflect.Uintptr:
+		return fmt.Sprint(v.Uint())
+	case reflect.Float32, reflect.Float64:
+		return fmt.Sprintf("%b", v.Float())
+	case reflect.String:
+		return map[string]interface{}{"str": []byte(v.String())}
+	case reflect.Slice:
+		if v.IsNil() {
+			return map[string]interface{}{"nil": true, "len": 0, "elems": []interface{}{}}
+		}
+		n := v.Len()
+		es := make([]interface{}, 0, n)
+		for i := 0; i < n && i < 4096; i++ {
+			es = append(es, govcEncV(v.Index(i), d+1))
+		}
+		return map[string]interface{}{"nil": false, "len": n, "cap": v.Cap(), "elems": es}
+	case reflect.Array:
+		n := v.Len()
+		es := make([]interface{}, 0, n)
+		for i := 0; i < n; i++ {
+			es = append(es, govcEncV(v.Index(i), d+1))
+		}
+		return map[string]interface{}{"array": es}
+	case reflect.Ptr:
+		if v.IsNil() {
+			return map[string]interface{}{"nil": true}
+		}
+		return map[string]interface{}{"nil": false, "val": govcEncV(v.Elem(), d+1)}
+	case reflect.Struct:
+		fs := make([]interface{}, 0, v.NumField())
+		for i := 0; i < v.NumField(); i++ {
+			fs = append(fs, govcEncV(v.Field(i), d+1))
+		}
+		return map[string]interface{}{"fields": fs}
+	case reflect.Func, reflect.Map, reflect.Chan:
+		return map[string]interface{}{"nil": v.IsNil()}
+	case reflect.Interface:
+		if v.IsNil() {
+			return map[string]interface{}{"nil": true}
+		}
+		return map[string]interface{}{"nil": false, "dyn": v.Elem().Type().String(), "val": govcEncV(v.Elem(), d+1), "errstr": govcErrStr(v)}
+	}
+	return nil
+}
+
+func govcErrStr(v reflect.Value) string {
+	if v.CanInterface() {
+		if e, ok := v.Interface().(error); ok {
+			return e.Error()
+		}
+	}
+	return ""
+}
+`
+
+type replayOutcome struct {
+	Pre     []interface{} `json:"pre"`
+	Panic   string        `json:"panic"`
+	Results []interface{} `json:"results"`
+	Post    []interface{} `json:"post"`
+	Log     []interface{} `json:"log"`
+}
+
 func replayObligation(e *Engine, u *Unit, o *Obligation, repo, dir string) (bool, string) {
-	p := writeReplayNote(dir, o, "obligation not discharged")
-	return false, p
+	base := filepath.Join(dir, sanitize(o.Name))
+	notePath := writeReplayNote(dir, o, "obligation not discharged")
+	if o.Result != "sat" || strings.HasPrefix(o.Name, "lemma.") {
+		return false, notePath
+	}
+	fn := e.findFunc(u.name)
+	if fn == nil {
+		return false, notePath
+	}
+	confirmed, text, why := doReplay(e, u, o, fn, repo)
+	if text != "" {
+		goPath := base + "_replay_test.go"
+		os.WriteFile(goPath, []byte(text), 0o644)
+		appendNote(notePath, "replay harness: "+goPath+"\nreplay verdict: "+why+"\n")
+		if confirmed {
+			return true, goPath
+		}
+		return false, goPath
+	}
+	appendNote(notePath, "replay: "+why+"\n")
+	return false, notePath
+}
+
+func appendNote(p, s string) {
+	f, err := os.OpenFile(p, os.O_APPEND|os.O_WRONLY, 0o644)
+	if err == nil {
+		f.WriteString(s)
+		f.Close()
+	}
+}
+
+func doReplay(e *Engine, u *Unit, o *Obligation, fn *ssa.Function, repo string) (confirmed bool, harness string, why string) {
+	defer func() {
+		if r := recover(); r != nil {
+			why = fmt.Sprintf("replay generator failed: %v", r)
+		}
+	}()
+	rc := &replayCtx{u: u, fn: fn, imports: map[string]string{}, pkg: fn.Pkg.Pkg, refVars: map[string]string{}}
+	// 1. plan probes for every parameter
+	var params []*cval
+	var pterms []string
+	for i, p := range fn.Params {
+		_ = i
+		var term string
+		for _, pr := range u.probes {
+			if pr.Name == p.Name() {
+				term = pr.Term
+			}
+		}
+		if term == "" {
+			return false, "", "no probe term for parameter " + p.Name()
+		}
+		pterms = append(pterms, term)
+		params = append(params, rc.plan(term, p.Type(), 0))
+	}
+	if len(fn.FreeVars) > 0 {
+		return false, "", "closures are not replayed directly"
+	}
+	// 2. ask the solver again, with the probes
+	script := strings.TrimSuffix(o.scriptText, "\n")
+	if i := strings.LastIndex(script, "(check-sat)"); i >= 0 {
+		script = script[:i] + "(check-sat)\n"
+	}
+	var sb strings.Builder
+	sb.WriteString(script)
+	sb.WriteString("(get-value (")
+	for _, p := range rc.probes {
+		sb.WriteString(p.term + "\n")
+	}
+	sb.WriteString("))\n")
+	tmpd, _ := os.MkdirTemp("", "govc-replay.")
+	defer os.RemoveAll(tmpd)
+	sf := filepath.Join(tmpd, "q.smt2")
+	os.WriteFile(sf, []byte(sb.String()), 0o644)
+	solver := o.Solver
+	if _, ok := solvers[solver]; !ok {
+		solver = "z3-new"
+	}
+	res := runSolver(solver, sf, 30)
+	if res.status != "sat" {
+		return false, "", "second solver run did not reproduce the model (" + res.status + ")"
+	}
+	rest := res.out[strings.Index(res.out, "sat")+3:]
+	sxs, err := parseSexprs(rest)
+	if err != nil || len(sxs) == 0 || len(sxs[0].list) != len(rc.probes) {
+		return false, "", "cannot parse the model values"
+	}
+	for i, pr := range rc.probes {
+		pair := sxs[0].list[i]
+		if len(pair.list) == 2 {
+			pr.into(pair.list[1])
+		}
+	}
+	// 3. Go harness
+	var args []string
+	for i, c := range params {
+		ex, err := rc.goExpr(c)
+		if err != nil {
+			return false, "", "model not replayable: " + err.Error()
+		}
+		v := fmt.Sprintf("in%d", i)
+		rc.decls = append(rc.decls, fmt.Sprintf("%s := %s", v, ex))
+		args = append(args, v)
+	}
+	var call string
+	nres := fn.Signature.Results().Len()
+	var lhs []string
+	for i := 0; i < nres; i++ {
+		lhs = append(lhs, fmt.Sprintf("r%d", i))
+	}
+	if fn.Signature.Recv() != nil {
+		name := fn.Name()
+		call = fmt.Sprintf("%s.%s(%s)", args[0], name, strings.Join(args[1:], ", "))
+		if _, isPtr := fn.Signature.Recv().Type().Underlying().(*types.Pointer); !isPtr {
+			call = fmt.Sprintf("(%s).%s(%s)", args[0], name, strings.Join(args[1:], ", "))
+		}
+	} else {
+		call = fmt.Sprintf("%s(%s)", fn.Name(), strings.Join(args, ", "))
+	}
+	if fn.Signature.Variadic() {
+		call = strings.TrimSuffix(call, ")") + "...)"
+	}
+	var body strings.Builder
+	for _, d := range rc.decls {
+		body.WriteString("\t" + d + "\n")
+	}
+	{
+		var pres []string
+		for _, a := range args {
+			pres = append(pres, "govcEnc("+a+")")
+		}
+		body.WriteString("\tout := map[string]interface{}{}\n\tout[\"pre\"] = []interface{}{" + strings.Join(pres, ", ") + "}\n")
+	}
+	body.WriteString("\tfunc() {\n\t\tdefer func() {\n\t\t\tif r := recover(); r != nil {\n\t\t\t\tout[\"panic\"] = fmt.Sprint(r)\n\t\t\t}\n\t\t}()\n")
+	if nres > 0 {
+		body.WriteString("\t\t" + strings.Join(lhs, ", ") + " := " + call + "\n")
+		var encs []string
+		for _, l := range lhs {
+			encs = append(encs, "govcEnc("+l+")")
+		}
+		body.WriteString("\t\tout[\"results\"] = []interface{}{" + strings.Join(encs, ", ") + "}\n")
+	} else {
+		body.WriteString("\t\t" + call + "\n")
+	}
+	body.WriteString("\t}()\n")
+	var posts []string
+	for _, a := range args {
+		posts = append(posts, "govcEnc("+a+")")
+	}
+	body.WriteString("\tout[\"post\"] = []interface{}{" + strings.Join(posts, ", ") + "}\n")
+	body.WriteString("\tout[\"log\"] = govcLog\n")
+	body.WriteString("\tjs, _ := json.Marshal(out)\n\tfmt.Println(\"GOVC-REPLAY-BEGIN\" + string(js) + \"GOVC-REPLAY-END\")\n")
+	body.WriteString("\tif out[\"panic\"] != nil {\n\t\tt.Logf(\"panic on the real code: %v\", out[\"panic\"])\n\t}\n")
+
+	rc.imports["testing"] = "testing"
+	rc.imports["fmt"] = "fmt"
+	rc.imports["encoding/json"] = "json"
+	rc.imports["reflect"] = "reflect"
+	var imps []string
+	for p := range rc.imports {
+		imps = append(imps, p)
+	}
+	sort.Strings(imps)
+	var file strings.Builder
+	file.WriteString("// Replay of obligation " + o.Name + "\n// clause: " + o.Src + "\n// generated by govc from the solver's counterexample; run inside the package with go test -overlay.\n")
+	file.WriteString("package " + rc.pkg.Name() + "\n\nimport (\n")
+	for _, p := range imps {
+		file.WriteString("\t\"" + p + "\"\n")
+	}
+	file.WriteString(")\n" + replayPrelude + "\nfunc TestGovcReplay(t *testing.T) {\n" + body.String() + "}\n")
+	harness = file.String()
+
+	// 4. run on the real code
+	outc, runErr := runHarness(repo, fn, harness, tmpd)
+	if runErr != "" {
+		return false, harness, "harness did not run: " + runErr
+	}
+	// 5. verdict
+	if strings.HasPrefix(o.Kind, "safe") {
+		if outc.Panic != "" {
+			return true, harness + "\n// OBSERVED on the real code: panic: " + outc.Panic + "\n", "panic observed on the real code: " + outc.Panic
+		}
+		return false, harness + "\n// OBSERVED: no panic on the real code\n", "no panic on the real code for this model (symbolic semantics and real code disagree, or the failing site is in a callee reached differently)"
+	}
+	if outc.Panic != "" {
+		return true, harness + "\n// OBSERVED on the real code: panic: " + outc.Panic + "\n", "panic observed on the real code: " + outc.Panic
+	}
+	if o.Kind != "post" {
+		return false, harness, "clause kind " + o.Kind + " is not evaluated on concrete runs"
+	}
+	ok, detail := evalClauseConcrete(e, u, o, fn, params, outc)
+	js, _ := json.Marshal(outc)
+	if ok {
+		return true, harness + "\n// OBSERVED on the real code: " + string(js) + "\n// the clause evaluates to FALSE on these observed values (" + detail + ")\n", "clause false on the real code"
+	}
+	return false, harness + "\n// OBSERVED on the real code: " + string(js) + "\n// " + detail + "\n", detail
+}
+
+func runHarness(repo string, fn *ssa.Function, harness, tmpd string) (*replayOutcome, string) {
+	rel := strings.TrimPrefix(fn.Pkg.Pkg.Path(), "gitlab.com/gomidi/midi/v2")
+	pkgDir := filepath.Join(repo, "v2", rel)
+	hf := filepath.Join(tmpd, "zz_govc_replay_test.go")
+	os.WriteFile(hf, []byte(harness), 0o644)
+	ov := map[string]map[string]string{"Replace": {filepath.Join(pkgDir, "zz_govc_replay_test.go"): hf}}
+	ovj, _ := json.Marshal(ov)
+	ovf := filepath.Join(tmpd, "overlay.json")
+	os.WriteFile(ovf, ovj, 0o644)
+	cmd := exec.Command("bash", "-c", "ulimit -v 4000000; exec go test -overlay "+ovf+" -tags verif -vet=off -count=1 -timeout 60s -run '^TestGovcReplay$' -v .")
+	cmd.Dir = pkgDir
+	cmd.Env = append(os.Environ(), "GOFLAGS=-mod=mod", "GOPROXY=off", "GOSUMDB=off", "GOTOOLCHAIN=local")
+	out, _ := cmd.CombinedOutput()
+	s := string(out)
+	i := strings.Index(s, "GOVC-REPLAY-BEGIN")
+	j := strings.Index(s, "GOVC-REPLAY-END")
+	if i < 0 || j < 0 {
+		return nil, firstLines(s, 12)
+	}
+	var oc replayOutcome
+	if err := json.Unmarshal([]byte(s[i+len("GOVC-REPLAY-BEGIN"):j]), &oc); err != nil {
+		return nil, err.Error()
+	}
+	return &oc, ""
 }
